@@ -722,6 +722,10 @@ func (e *env) expectClient(m *pktMeta, now time.Time) (expect, string, string) {
 	switch {
 	case e.cur == nil:
 		return mustAccept, "c04.fresh-refused{first-session}", fmt.Sprintf("packet id %d is the first authentic server packet this client session sees", m.id)
+	case !e.hasChange:
+		// the first change of the server session is never "more than one per minute"
+		s.Probe("c04.cli.first-change-must-accept")
+		return mustAccept, "c04.fresh-refused{first-session-change}", fmt.Sprintf("packet id %d opens the first server-session change this client sees (%v after the session was established); only further changes within a minute may be refused", m.id, now.Sub(e.lastEvent))
 	case e.hasChange && now.Sub(e.lastChange) < time.Minute:
 		s.Probe("c04.cli.change-refused<60s")
 		e.hostile++
